@@ -269,6 +269,8 @@ def build_project(root, spec):
                 os.utime(os.path.join(dp, fn), (T0, T0))
         for name, content, mt in j["files"]:
             os.utime(os.path.join(job.path, name), (mt, mt))
+            if zlib.crc32((name + "\0" + content).encode()) % 6 == 0:
+                os.chmod(os.path.join(job.path, name), 0o444)     # a write-protected result file
         if j["doc"] is not None:
             os.utime(os.path.join(job.path, FN_DOC), (j["doc_mt"], j["doc_mt"]))
     for fn in (FN_PDOC, FN_PDOC + "~"):
@@ -292,7 +294,7 @@ def snapshot(root):
                 data = f.read()
             st = os.stat(full)
             out[os.path.normpath(os.path.join(rel, fn))] = (
-                "f", hashlib.sha1(data).hexdigest(), st.st_size, st.st_mtime, data)
+                "f", hashlib.sha1(data).hexdigest(), st.st_size, st.st_mtime, data, st.st_mode & 0o7777)
     return out
 
 
@@ -1505,7 +1507,7 @@ def oracle_c15(o):
         # bytes and structure of everything; mtimes of everything but document files (a failed
         # item assignment on a synced list re-saves the unchanged document: dependency behaviour)
         def view(snap):
-            return {k: (v[:2] if (v[0] == "f" and is_docfile(k)) else v[:4]) for k, v in snap.items()}
+            return {k: (v[:2] if (v[0] == "f" and is_docfile(k)) else (v[:4] + v[5:6])) for k, v in snap.items()}
 
         if view(o.d1) != view(o.d0):
             for p in sorted(k for k in set(o.d0) | set(o.d1) if view(o.d0).get(k) != view(o.d1).get(k))[:6]:
@@ -1518,7 +1520,7 @@ def oracle_c15(o):
                 else:
                     why = None
                 fails.append(("dry run changed the destination: %s %r -> %r" % (
-                    p, (o.d0.get(p) or ("absent",))[:2], (o.d1.get(p) or ("absent",))[:2]), why))
+                    p, ((o.d0.get(p) or ("absent",))[:2] + (o.d0.get(p) or ())[5:6]), ((o.d1.get(p) or ("absent",))[:2] + (o.d1.get(p) or ())[5:6])), why))
         if o.twin is not None:
             tk, tp = o.twin["kind"], o.twin["payload"]
             assert o.twin["same_start"], "twin projects differ from the originals"
